@@ -632,10 +632,20 @@ def install(world):
         return apply_uf('py.pow', a, 'Val')
     reg('pow', b_pow)
 
-    def b_round(x, nd=0):
+    def b_round(x, nd=None):
         if not S.is_sym(x) and not S.is_sym(nd):
-            return round(x, nd)
-        return apply_uf('py.round', (x, nd), 'Val')
+            return round(x) if nd is None else round(x, nd)
+        if nd is None and isinstance(x, (SInt, int)):
+            return x
+        if nd is None and isinstance(x, SReal):
+            # round(float) -> int, ties to even (exact on the float's value)
+            t = x.t
+            f = z3.ToInt(t)
+            d = t - z3.ToReal(f)
+            half = z3.RealVal('1/2')
+            return SInt(z3.If(d < half, f, z3.If(
+                d > half, f + 1, z3.If(f % 2 == 0, f, f + 1))))
+        return apply_uf('py.round', (x, 0 if nd is None else nd), 'Val')
     reg('round', b_round)
 
     def b_hex(x):
@@ -1251,6 +1261,9 @@ def seq_method(world, o, name, args, kw, it, node):
     if isinstance(o, S.SSet):
         if name == 'add':
             o.arr = z3.Store(o.arr, o.elem.unwrap(args[0]), z3.BoolVal(True))
+            return None
+        if name == 'clear' and not args:
+            o.arr = z3.K(o.elem.sort(), z3.BoolVal(False))
             return None
         if name == 'update':
             x = args[0]
